@@ -30,8 +30,8 @@ CONSTANT FixTail     \* design model to compare with (drift only); FALSE = code 
 
 Trace == ndJsonDeserialize("trace.ndjson")
 
-VARIABLES l, tid, n, xs, curK, curRes, bad, drift
-vars == <<l, tid, n, xs, curK, curRes, bad, drift>>
+VARIABLES l, tid, n, xs, asc, curK, curRes, bad, drift
+vars == <<l, tid, n, xs, asc, curK, curRes, bad, drift>>
 
 F1Why  == "Search result depends on memory beyond len(xs) when len(xs) % 8 != 0"
 F1Why0 == "Search result depends on memory beyond len(xs) when len(xs) = 0 (xs[0], xs[2], xs[4], xs[6] are compared before the length is looked at)"
@@ -40,41 +40,53 @@ DepWhy == "Search result changed when only the memory beyond len(xs) changed"
 
 Flag(cond, why) == IF cond THEN {} ELSE {[at |-> l, trace |-> tid, why |-> why]}
 
-\* the property's own definition: index of the first key >= k (keys at even positions), or n/2
+\* the property's own definition: index of the first key >= k (keys at even positions), or n/2.
+\* `asc` (computed once per array) says that the logged keys ascend - the arrays C20 speaks about;
+\* then the least index with key >= k is found by bisection, otherwise by the linear scan.
 RECURSIVE First(_, _)
 First(i, k) == IF 2 * i >= n THEN n \div 2 ELSE IF xs[2 * i + 1] >= k THEN i ELSE First(i + 1, k)
-Expected(k) == First(0, k)
+RECURSIVE Bisect(_, _, _)
+Bisect(lo, hi, k) ==      \* keys with index < lo are < k, keys with index >= hi are >= k
+  IF lo >= hi THEN lo
+  ELSE LET mid == (lo + hi) \div 2 IN
+       IF xs[2 * mid + 1] >= k THEN Bisect(lo, mid, k) ELSE Bisect(mid + 1, hi, k)
+Expected(k) == IF asc THEN Bisect(0, n \div 2, k) ELSE First(0, k)
+Ascending(a) == \A i \in 1..((Len(a) \div 2) - 1) : a[2 * i - 1] <= a[2 * i + 1]
 
-\* the design model of the kernel on the logged memory (see Search.tla): word at position pos
+\* the design model of the kernel on the logged memory, in the closed form that Search.tla proves
+\* equal to the trip-by-trip kernel (invariant ClosedFormOK): a key >= k inside the slice is found
+\* first; otherwise the code as it is (fix = FALSE) goes on through the key slots up to the end of
+\* the 8-word group.  A word that was not logged (guard page) is unreadable: fault.
 Word(pos, tail) == IF pos < n THEN xs[pos + 1] ELSE IF pos - n < Len(tail) THEN tail[pos - n + 1] ELSE -1
-RECURSIVE Kern(_, _, _, _, _)
-Kern(fix, i, j, k, tail) ==
-  IF j = 4 THEN (IF i + 8 < n THEN Kern(fix, i + 8, 0, k, tail) ELSE [res |-> n \div 2, fault |-> FALSE])
-  ELSE LET pos == i + 2 * j IN
-       IF fix /\ pos >= n THEN [res |-> n \div 2, fault |-> FALSE]
-       ELSE IF Word(pos, tail) = -1 THEN [res |-> -1, fault |-> TRUE]
-       ELSE IF Word(pos, tail) >= k THEN [res |-> pos \div 2, fault |-> FALSE]
-       ELSE Kern(fix, i, j + 1, k, tail)
+RoundUp8 == IF n = 0 THEN 8 ELSE ((n + 7) \div 8) * 8
+RECURSIVE Over(_, _, _)
+Over(pos, k, tail) ==
+  IF pos >= RoundUp8 THEN [res |-> n \div 2, fault |-> FALSE]
+  ELSE IF Word(pos, tail) = -1 THEN [res |-> -1, fault |-> TRUE]
+  ELSE IF Word(pos, tail) >= k THEN [res |-> pos \div 2, fault |-> FALSE]
+  ELSE Over(pos + 2, k, tail)
+Kern(fix, exp, k, tail) ==
+  IF exp < n \div 2 \/ fix \/ (n % 8 = 0 /\ n > 0) THEN [res |-> exp, fault |-> FALSE]
+  ELSE Over(n, k, tail)
 
 Unaligned == n % 8 # 0 \/ n = 0
-RoundUp8 == IF n = 0 THEN 8 ELSE ((n + 7) \div 8) * 8
 \* results the untested tail can produce when no key of xs is >= k
 FeasibleF1 == (n \div 2)..((RoundUp8 - 2) \div 2)
 F1Reason == IF n = 0 THEN F1Why0 ELSE F1Why
 
-Init == l = 1 /\ tid = 0 /\ n = 0 /\ xs = <<>> /\ curK = -1 /\ curRes = {} /\ bad = {} /\ drift = {}
+Init == l = 1 /\ tid = 0 /\ n = 0 /\ xs = <<>> /\ asc = TRUE /\ curK = -1 /\ curRes = {} /\ bad = {} /\ drift = {}
 
 Step(e) ==
   CASE e.ev = "New" ->
          /\ Assert(e.n = Len(e.xs), <<"New: n differs from the logged array", l>>)
-         /\ tid' = e.t /\ n' = e.n /\ xs' = e.xs /\ curK' = -1 /\ curRes' = {}
+         /\ tid' = e.t /\ n' = e.n /\ xs' = e.xs /\ asc' = Ascending(e.xs) /\ curK' = -1 /\ curRes' = {}
          /\ UNCHANGED <<bad, drift>>
     [] e.ev = "CaseBegin" ->
-         UNCHANGED <<tid, n, xs, curK, curRes, bad, drift>>
+         UNCHANGED <<tid, n, xs, asc, curK, curRes, bad, drift>>
     [] e.ev = "Search" ->
          LET exp   == Expected(e.k)
-             asis  == Kern(FALSE, 0, 0, e.k, e.tail)
-             model == Kern(FixTail, 0, 0, e.k, e.tail)
+             asis  == Kern(FALSE, exp, e.k, e.tail)
+             model == IF FixTail THEN Kern(TRUE, exp, e.k, e.tail) ELSE asis
              none  == exp = n \div 2          \* no key of xs is >= k
              prior == IF curK = e.k THEN curRes ELSE {}
              f1    == Unaligned /\ none /\ ~asis.fault /\ asis.res = e.res
@@ -87,21 +99,21 @@ Step(e) ==
          /\ drift' = drift \cup Flag(~model.fault /\ model.res = e.res,
                                      "Search result differs from the design model of the kernel")
          /\ curK' = e.k /\ curRes' = prior \cup {e.res}
-         /\ UNCHANGED <<tid, n, xs>>
+         /\ UNCHANGED <<tid, n, xs, asc>>
     [] e.ev = "Fault" ->
          LET exp   == Expected(e.k)
-             asis  == Kern(FALSE, 0, 0, e.k, e.tail)
-             model == Kern(FixTail, 0, 0, e.k, e.tail)
+             asis  == Kern(FALSE, exp, e.k, e.tail)
+             model == IF FixTail THEN Kern(TRUE, exp, e.k, e.tail) ELSE asis
              none  == exp = n \div 2
          IN
          /\ bad' = bad \cup Flag(FALSE, IF e.fn = "Search" /\ Unaligned /\ none /\ asis.fault
                                           THEN F1Reason
                                           ELSE "memory fault in " \o e.fn)
          /\ drift' = drift \cup Flag(e.fn = "Search" /\ model.fault, "fault not predicted by the design model of the kernel")
-         /\ UNCHANGED <<tid, n, xs, curK, curRes>>
+         /\ UNCHANGED <<tid, n, xs, asc, curK, curRes>>
     [] e.ev = "Panic" ->
          /\ bad' = bad \cup Flag(FALSE, "panic in " \o e.fn)
-         /\ UNCHANGED <<tid, n, xs, curK, curRes, drift>>
+         /\ UNCHANGED <<tid, n, xs, asc, curK, curRes, drift>>
 
 Next == /\ l <= Len(Trace)
         /\ l' = l + 1
